@@ -145,6 +145,21 @@ class World:
         self.workers[child.pid] = {'proc': child, 'start_step': self.k.steps, 'start_time': self.k.now,
                                    'index': getattr(process_obj, 'index', None)}
         self.k.record('worker-start', child.pid)
+        child.at_exit.append(self._on_worker_death)
+
+    def on_sig_deliver(self, proc, signum, label):
+        if proc.pid in self.workers and label == 'read:%d' % self.inq_rfd and \
+                self.in_pipe.nread not in self.in_bounds:
+            self.marks['task_stream_desync'] = (proc.pid, self.k.steps)
+            self.k.probe('worker_signalled_with_half_read_task')
+
+    def _on_worker_death(self, proc):
+        """A reader that dies (or is unwound by a signal handler) after consuming part of a task message
+        leaves the shared task pipe desynchronised for every later reader."""
+        a = proc.main
+        if a is not None and a.label == 'read:%d' % self.inq_rfd and self.in_pipe.nread not in self.in_bounds:
+            self.marks['task_stream_desync'] = (proc.pid, self.k.steps)
+            self.k.probe('worker_died_with_half_read_task')
 
     # ------------------------------------------------------------------ wiretaps
     def _tap_out(self, pipe, proc, chunk):
@@ -250,6 +265,12 @@ class World:
             elif name == 'wait_accepted':
                 self.wait_accepted(op[1], op[2] if len(op) > 2 else 30.0)
             elif name == 'check_size':
+                # look at the pool between two supervision passes, not in the middle of one
+                sa = next((x for x in k.actors if x.kind == 'Supervisor'), None)
+                if sa is not None:
+                    a = k.enter('check-size')
+                    k.wait_until(a, lambda: sa.state == 'done' or (sa.state == 'blocked' and sa.label == 'sleep'),
+                                 k.now + 5.0, 'check-size')
                 self.size_checks.append(self.size_snapshot())
             elif name == 'check_slots':
                 self.wait_all_resolved(60.0)
@@ -330,7 +351,10 @@ class World:
             h = fn(T.run_item, items, chunksize or 1)
             res = h
             if h is not None and not hasattr(h, '_job'):
-                res = h.gi_frame.f_locals['.0']         # the IMapIterator behind the chunk-flattening generator
+                # the IMapIterator behind the chunk-flattening iterator (object or generator expression)
+                res = getattr(h, '_result', None)
+                if res is None:
+                    res = h.gi_frame.f_locals['.0']
         rec.handle = h
         rec.res = res
         rec.returned_handle = h is not None
@@ -354,7 +378,7 @@ class World:
                 n += 1
                 t0 = k.now
                 try:
-                    if hasattr(h, '_job'):
+                    if hasattr(h, '_job') or hasattr(h, '_result'):
                         v = h.next(timeout)
                     else:
                         v = self._gen_next(rec, h, timeout)
@@ -437,6 +461,8 @@ class World:
         if any(r.returned_handle and r.first is None and not (hasattr(r.res, 'accepted') and r.res.accepted())
                for r in self.jobs.values() if r.kind == 'apply'):
             k.probe('terminate_with_queued_jobs')
+        self.marks.setdefault('live_before_terminate',
+                              sum(1 for w in self.workers.values() if not w['proc'].dead))
         # a user-side event loop (threads=False) does not call the pool's handlers during terminate()
         self.stop_evloop = True
         for a in k.actors:
@@ -653,10 +679,15 @@ class World:
         if self.last_resize_step >= begin_step:
             return      # grow()/shrink() happened during this pass: judged after the next one
         self.pass_checks += 1
+        n_all = len(pool._pool)
         n = sum(1 for w in pool._pool if not getattr(w, '_controlled_termination', False))
-        if n != pool._processes:
-            self.bad('C09.a', 'size-after-pass:%s' % ('below' if n < pool._processes else 'above'),
-                     'after a supervision pass the pool holds %d workers, target %d' % (n, pool._processes))
+        if n_all < pool._processes:
+            self.bad('C09.a', 'size-after-pass:below',
+                     'after a supervision pass the pool holds %d workers, target %d' % (n_all, pool._processes))
+        elif n > pool._processes:
+            self.bad('C09.a', 'size-after-pass:above',
+                     'after a supervision pass the pool holds %d workers that were not asked to leave, target %d'
+                     % (n, pool._processes))
         idx = [getattr(w, 'index', None) for w in pool._pool]
         if len(set(idx)) != len(idx):
             self.bad('C09.a', 'duplicate-slot-index', 'indices %r' % (idx,))
